@@ -414,3 +414,933 @@ def ground_truth(case):
     res = rt.run()
     res["unsupported"] = rt.unsupported
     return res
+
+
+# =============================================================================================
+# 3. renderer: chain spec -> project
+
+FILE_NAMES = ["a.py", "b.py", "c.py"]
+MOD_NAMES = ["a", "b", "c"]
+
+INLINE_LINKS = ["assign", "binop_r", "binop_l", "binop_mul", "augassign", "field", "ctor_field", "method_field",
+                "static_field", "list_lit", "list_store", "list_append", "dict_lit", "dict_store", "dict_get",
+                "tuple_unpack", "tuple_assign", "if_then", "if_else", "ifexp", "for_body", "for_iter", "while_body",
+                "try_body", "lambda", "call_id", "call_kw", "call_second", "merge_src", "tee"]
+BLOCK_LINKS = ["in_if", "in_else", "in_for", "in_while", "in_try"]
+DESCEND_LINKS = ["param", "param_kw", "closure", "method_param"]
+ASCEND_LINKS = ["return", "global_write", "nonlocal", "out_field", "global_import"]
+ALL_LINKS = INLINE_LINKS + BLOCK_LINKS + DESCEND_LINKS + ASCEND_LINKS
+ENDINGS = ["sink", "drop", "kill", "wrongpos", "unrel_field", "unrel_obj", "unrel_var", "const_callee",
+           "decoy_fieldw_prefix", "decoy_method_like_call"]
+NEGATIVE_ENDINGS = [e for e in ENDINGS if e not in ("sink",)]
+
+
+class Line(object):
+    __slots__ = ("text", "tag", "ind")
+
+    def __init__(self, text, ind=0, tag=None):
+        self.text = text
+        self.ind = ind
+        self.tag = tag
+
+    def render(self):
+        return self.text
+
+
+class CallRec(object):
+    __slots__ = ("callee", "args", "target", "ind", "tag")
+
+    def __init__(self, callee, args, ind=0, target=None):
+        self.callee = callee          # expression text of the callee
+        self.args = list(args)
+        self.target = target
+        self.ind = ind
+        self.tag = None
+
+    def render(self):
+        call = "%s(%s)" % (self.callee, ", ".join(self.args))
+        if self.target:
+            return "%s = %s" % (self.target, call)
+        return call
+
+
+class Frame(object):
+    def __init__(self, kind, file, name=None, params=(), parent=None):
+        self.kind = kind              # module | func | nested | method | class
+        self.file = file
+        self.name = name
+        self.params = list(params)
+        self.parent = parent          # calling frame
+        self.body = []
+        self.decls = []
+        self.ind = 0
+        self.at_ind = 0               # indentation of a nested def inside its parent's body
+        self.closers = []             # [(header Line, [closing Lines])]
+        self.call_rec = None
+        self.header_tag = None
+        self.seg_start = 0
+        self.exported = []
+        self.holder = None            # body list that holds this frame's placeholder (nested frames)
+
+    def header(self):
+        if self.kind == "class":
+            return "class %s:" % self.name
+        return "def %s(%s):" % (self.name, ", ".join(self.params))
+
+    def emit(self, text, tag=None, extra_ind=0):
+        ln = Line(text, self.ind + extra_ind, tag)
+        self.body.append(ln)
+        return ln
+
+    def close_blocks(self):
+        while self.closers:
+            header, closing = self.closers.pop()
+            if self.body and self.body[-1] is header:
+                self.body.append(Line("pass", header.ind + 4))
+            self.body.extend(closing)
+        self.ind = 0
+
+
+def render_frame(fr, ind0):
+    out = []
+    if fr.kind != "module":
+        out.append((" " * ind0 + fr.header(), fr.header_tag))
+        base = ind0 + 4
+    else:
+        base = ind0
+    n0 = len(out)
+    for g in fr.decls:
+        out.append((" " * base + g, None))
+    for it in fr.body:
+        if isinstance(it, Frame):
+            out.extend(render_frame(it, base + it.at_ind))
+        else:
+            out.append((" " * (base + it.ind) + it.render(), it.tag))
+    if len(out) == n0 and fr.kind != "module":
+        out.append((" " * base + "pass", None))
+    return out
+
+
+class FileB(object):
+    def __init__(self, idx):
+        self.idx = idx
+        self.name = FILE_NAMES[idx]
+        self.mod = MOD_NAMES[idx]
+        self.imports = []
+        self.ginit = []
+        self.frames = []              # file-level frames (classes, functions) in creation order
+        self.module = Frame("module", idx, name="<module>")
+
+    def add_import(self, text):
+        if text not in self.imports:
+            self.imports.append(text)
+
+    def layout(self):
+        out = [(t, None) for t in self.imports]
+        out.extend((t, None) for t in self.ginit)
+        for fr in self.frames:
+            out.extend(render_frame(fr, 0))
+        out.extend(render_frame(self.module, 0))
+        if not out:
+            out = [("pass", None)]
+        return out
+
+
+class Builder(object):
+    def __init__(self, spec):
+        self.spec = spec
+        self.nfiles = max(1, min(3, int(spec.get("nfiles", 1))))
+        self.files = [FileB(i) for i in range(self.nfiles)]
+        self.uniq = bool(spec.get("uniq_names", False))
+        self.avoid = set(spec.get("avoid", []))      # link labels / rule kinds stepped over (open findings)
+        self.stepped = []
+        self.sources = []
+        self.sinks = []
+        self.src_rules = []
+        self.snk_rules = []
+        self.chains_meta = []
+        self.param_sites = []
+        self.c = 0
+        self.nv = 0
+        self.B = self.files[0].module
+
+    # -- names --------------------------------------------------------------------------------
+    def var(self, stem="v"):
+        self.nv += 1
+        return "%s%d_%d" % (stem, self.c, self.nv)
+
+    def ref(self, cur_file, target_file, name, xf):
+        """expression naming the file-level `name` of target_file from cur_file (adds the import)."""
+        if cur_file == target_file:
+            return name, ""
+        if xf == "mod" and self._avoid_xf == "mod":
+            self.stepped.append(self._avoid_label)
+            xf = "from"
+        if xf == "mod":
+            self.files[cur_file].add_import("import %s" % MOD_NAMES[target_file])
+            return "%s.%s" % (MOD_NAMES[target_file], name), "@mod"
+        self.files[cur_file].add_import("from %s import %s" % (MOD_NAMES[target_file], name))
+        return name, "@from"
+
+    _avoid_xf = None
+    _avoid_label = None
+
+    def pick_file(self, cur_file, link):
+        """target file of a cross-file construct; honours the avoid set for <kind>@from / <kind>@mod."""
+        k = link.get("k") or link.get("kind") or ""
+        self._avoid_xf = None
+        tf = min(self.nfiles - 1, cur_file + int(link.get("df", 0) or 0))
+        if tf != cur_file:
+            if self.avoid_has(k + "@from") and (link.get("xf") != "mod" or self.avoid_has(k + "@mod")):
+                self.stepped.append(k + "@from")
+                return cur_file
+            if self.avoid_has(k + "@mod"):
+                self._avoid_xf = "mod"
+                self._avoid_label = k + "@mod"
+        return tf
+
+    def avoid_has(self, label):
+        if label in self.avoid:
+            return True
+        # "*@mod" style entries: any construct through a module attribute
+        if "@" in label and ("*@" + label.split("@", 1)[1]) in self.avoid:
+            return True
+        return False
+
+    # -- rules --------------------------------------------------------------------------------
+    def add_src_rule(self, kind, name):
+        r = {"operation": SRC_OP[kind], "name": name}
+        if r not in self.src_rules:
+            self.src_rules.append(r)
+
+    def add_snk_rule(self, kind, name, pos, key=None):
+        if kind == "recordw":
+            r = {"operation": SNK_OP[kind], "key": key, "target": []}
+        else:
+            r = {"operation": SNK_OP[kind], "name": name, "target": [ARG[pos]]}
+        if r not in self.snk_rules:
+            self.snk_rules.append(r)
+
+    # -- sources ------------------------------------------------------------------------------
+    def source_expr(self, kind, sid):
+        sfx = str(sid) if self.uniq else ""
+        if kind == "call":
+            name = "source" + sfx
+            self.add_src_rule("call", name)
+            return name + "()"
+        if kind == "method":
+            name = "srcobj.get" + sfx
+            self.add_src_rule("method", name)
+            return name + "()"
+        name = "srcobj.secret" + sfx
+        self.add_src_rule("field", name)
+        return name
+
+    def new_source(self, kind, at):
+        sid = len(self.sources)
+        self.sources.append({"id": sid, "kind": kind, "chain": self.c, "at": at})
+        return sid
+
+    # -- sinks --------------------------------------------------------------------------------
+    def emit_sink(self, cur, v, snk, at, ending="sink", wrong=False):
+        """Emit one sink statement whose designated operand is `v` (or, if wrong, carries v elsewhere)."""
+        kind = snk.get("kind", "call")
+        pos = snk.get("pos", "arg0")
+        nargs = int(snk.get("nargs", 1))
+        if self.avoid_has("snk:" + kind):
+            self.stepped.append("snk:" + kind)
+            kind = "call" if not self.avoid_has("snk:call") else "method"
+        tid = len(self.sinks)
+        sfx = str(tid) if self.uniq else ""
+        if kind in ("call", "method") and pos == "receiver" and kind == "call":
+            pos = "arg0"
+        if kind == "fieldw":
+            pos = "target"
+        if kind == "recordw":
+            pos = "value"
+        if wrong and (kind in ("fieldw", "recordw") or pos == "receiver"):
+            kind, pos = "call", "arg0"
+        if pos == "receiver" and ending != "sink":
+            # the operand of a negative ending need not be a Taint object at run time
+            kind, pos = "call", "arg0"
+        if kind in ("call", "method") and pos != "receiver":
+            p = int(pos[3:])
+            nargs = max(nargs, p + 1, 2 if wrong else 1)
+            args = [str(i + 5) for i in range(nargs)]
+            if wrong:
+                q = (p + 1) % nargs
+                args[q] = v
+            else:
+                args[p] = v
+            possfx = "" if p == 0 else "_a%d" % p
+            if kind == "call":
+                name = "sink" + possfx + sfx
+                text = "%s(%s)" % (name, ", ".join(args))
+            else:
+                name = "snkobj.send" + possfx + sfx
+                text = "%s(%s)" % (name, ", ".join(args))
+            self.add_snk_rule(kind, name, pos)
+        elif kind == "method":      # receiver
+            name = "%s.emit%s" % (v, sfx)
+            text = "%s(%s)" % (name, ", ".join(str(i + 5) for i in range(max(0, nargs - 1))))
+            self.add_snk_rule("method", name, "receiver")
+        elif kind == "fieldw":
+            name = "snkobj.out" + sfx
+            text = "%s = %s" % (name, v)
+            self.add_snk_rule("fieldw", name, "target")
+        else:
+            key = "data" + sfx
+            d = self.var("d")
+            text = '%s = {"%s": %s}' % (d, key, v)
+            self.add_snk_rule("recordw", None, None, key='"%s"' % key)
+        ln = cur.emit(text, tag=("snk", tid))
+        self.sinks.append({"id": tid, "kind": kind, "pos": pos, "chain": self.c, "at": at, "ending": ending})
+        return ln
+
+    # -- frames -------------------------------------------------------------------------------
+    def new_func(self, cur, file, params, kind="func"):
+        name = self.var("f")
+        fr = Frame(kind, file, name=name, params=params, parent=cur)
+        self.files[file].frames.append(fr)
+        return fr
+
+    def new_class(self, file, stem="K"):
+        name = self.var(stem)
+        fr = Frame("class", file, name=name)
+        self.files[file].frames.append(fr)
+        return fr
+
+    def call_into(self, cur, callee_expr, args, fr):
+        rec = CallRec(callee_expr, args, ind=cur.ind)
+        cur.body.append(rec)
+        fr.call_rec = rec
+        fr.parent = cur
+        return rec
+
+    def descend_plain(self, cur, link, kind="func", args=(), params=()):
+        """A frame called from cur; kind func (file-level, possibly in another file), nested, method."""
+        if kind == "nested" and cur.kind in ("module", "class"):
+            kind = "func"
+        if kind == "nested":
+            fr = Frame("nested", cur.file, name=self.var("n"), params=params, parent=cur)
+            fr.at_ind = cur.ind
+            fr.holder = cur.body
+            cur.body.append(fr)
+            self.call_into(cur, fr.name, args, fr)
+            return fr, ""
+        if kind == "method":
+            tf = self.pick_file(cur.file, link)
+            cls = self.new_class(tf)
+            fr = Frame("method", tf, name="m", params=["self"] + list(params), parent=cur)
+            cls.body.append(fr)
+            cexpr, lab = self.ref(cur.file, tf, cls.name, link.get("xf"))
+            k = self.var("k")
+            cur.emit("%s = %s()" % (k, cexpr))
+            self.call_into(cur, "%s.m" % k, args, fr)
+            return fr, lab
+        tf = self.pick_file(cur.file, link)
+        fr = self.new_func(cur, tf, params)
+        fexpr, lab = self.ref(cur.file, tf, fr.name, link.get("xf"))
+        self.call_into(cur, fexpr, args, fr)
+        return fr, lab
+
+    def wrap(self, cur):
+        """cur is a module frame: move the statements this chain emitted there into a new function."""
+        cur.close_blocks()
+        fr = self.new_func(cur, cur.file, [])
+        seg = cur.body[cur.seg_start:]
+        del cur.body[cur.seg_start:]
+        fr.body = seg
+        for it in seg:
+            if isinstance(it, Frame):
+                it.holder = fr.body
+        if cur.exported:
+            fr.decls.append("global " + ", ".join(cur.exported))
+        self.call_into(cur, fr.name, [], fr)
+        return fr
+
+    # -- links --------------------------------------------------------------------------------
+    def helper(self, cur, link, params, ret):
+        tf = self.pick_file(cur.file, link)
+        fr = Frame("func", tf, name=self.var("h"), params=params)
+        fr.body.append(Line("return " + ret))
+        self.files[tf].frames.append(fr)
+        return self.ref(cur.file, tf, fr.name, link.get("xf"))
+
+    def apply_link(self, cur, v, link, at):
+        """-> (cur', v', label or None)"""
+        k = link["k"]
+        E = cur.emit
+        w = self.var()
+        if self.avoid_has(k) or (k == "closure" and cur.kind == "module" and self.avoid_has("global_read")):
+            self.stepped.append("global_read" if (k == "closure" and not self.avoid_has(k)) else k)
+            link = dict(link)
+            k = link["k"] = "param" if k in DESCEND_LINKS and not self.avoid_has("param") else \
+                ("return" if k in ASCEND_LINKS and not self.avoid_has("return") else "assign")
+        if k == "assign":
+            E("%s = %s" % (w, v))
+        elif k == "binop_r":
+            E("%s = %s + 1" % (w, v))
+        elif k == "binop_l":
+            E("%s = 2 + %s" % (w, v))
+        elif k == "binop_mul":
+            E("%s = %s * 3" % (w, v))
+        elif k == "augassign":
+            E("%s = 0" % w)
+            E("%s += %s" % (w, v))
+        elif k == "field":
+            cls = self.new_class(cur.file, "Bx")
+            o = self.var("o")
+            E("%s = %s()" % (o, cls.name))
+            E("%s.f = %s" % (o, v))
+            E("%s = %s.f" % (w, o))
+        elif k == "ctor_field":
+            tf = self.pick_file(cur.file, link)
+            cls = self.new_class(tf, "Ct")
+            init = Frame("method", tf, name="__init__", params=["self", "x"])
+            init.body.append(Line("self.f = x"))
+            cls.body.append(init)
+            cexpr, lab = self.ref(cur.file, tf, cls.name, link.get("xf"))
+            o = self.var("o")
+            E("%s = %s(%s)" % (o, cexpr, v))
+            E("%s = %s.f" % (w, o))
+            k = k + lab
+        elif k == "method_field":
+            cls = self.new_class(cur.file, "Ms")
+            st = Frame("method", cur.file, name="put", params=["self", "x"])
+            st.body.append(Line("self.f = x"))
+            gt = Frame("method", cur.file, name="take", params=["self"])
+            gt.body.append(Line("return self.f"))
+            cls.body.extend([st, gt])
+            o = self.var("o")
+            E("%s = %s()" % (o, cls.name))
+            E("%s.put(%s)" % (o, v))
+            E("%s = %s.take()" % (w, o))
+        elif k == "static_field":
+            cls = self.new_class(cur.file, "Sf")
+            E("%s.f = %s" % (cls.name, v))
+            E("%s = %s.f" % (w, cls.name))
+        elif k == "list_lit":
+            l = self.var("l")
+            E("%s = [%s]" % (l, v))
+            E("%s = %s[0]" % (w, l))
+        elif k == "list_store":
+            l = self.var("l")
+            E("%s = [0]" % l)
+            E("%s[0] = %s" % (l, v))
+            E("%s = %s[0]" % (w, l))
+        elif k == "list_append":
+            l = self.var("l")
+            E("%s = []" % l)
+            E("%s.append(%s)" % (l, v))
+            E("%s = %s[0]" % (w, l))
+        elif k == "dict_lit":
+            d = self.var("d")
+            E('%s = {"k": %s}' % (d, v))
+            E('%s = %s["k"]' % (w, d))
+        elif k == "dict_store":
+            d = self.var("d")
+            E("%s = {}" % d)
+            E('%s["k"] = %s' % (d, v))
+            E('%s = %s["k"]' % (w, d))
+        elif k == "dict_get":
+            d = self.var("d")
+            E('%s = {"k": %s}' % (d, v))
+            E('%s = %s.get("k")' % (w, d))
+        elif k == "tuple_unpack":
+            t, z = self.var("t"), self.var("z")
+            E("%s = (%s, 0)" % (t, v))
+            E("%s, %s = %s" % (w, z, t))
+        elif k == "tuple_assign":
+            z = self.var("z")
+            E("%s, %s = %s, 0" % (w, z, v))
+        elif k in ("if_then", "if_else"):
+            c = self.var("c")
+            E("%s = %s" % (c, "True" if k == "if_then" else "False"))
+            E("if %s:" % c)
+            E("%s = %s" % (w, v if k == "if_then" else "0"), extra_ind=4)
+            E("else:")
+            E("%s = %s" % (w, "0" if k == "if_then" else v), extra_ind=4)
+        elif k == "ifexp":
+            c = self.var("c")
+            E("%s = True" % c)
+            E("%s = %s if %s else 0" % (w, v, c))
+        elif k == "for_body":
+            E("for %s in [0]:" % self.var("i"))
+            E("%s = %s" % (w, v), extra_ind=4)
+        elif k == "for_iter":
+            E("for %s in [%s]:" % (w, v))
+            E("pass", extra_ind=4)
+        elif k == "while_body":
+            c = self.var("c")
+            E("%s = True" % c)
+            E("while %s:" % c)
+            E("%s = %s" % (w, v), extra_ind=4)
+            E("%s = False" % c, extra_ind=4)
+        elif k == "try_body":
+            E("try:")
+            E("%s = %s" % (w, v), extra_ind=4)
+            E("except Exception:")
+            E("%s = 0" % w, extra_ind=4)
+        elif k == "lambda":
+            g = self.var("g")
+            E("%s = lambda x: x" % g)
+            E("%s = %s(%s)" % (w, g, v))
+        elif k in ("call_id", "call_kw"):
+            fexpr, lab = self.helper(cur, link, ["a"], "a")
+            E("%s = %s(%s%s)" % (w, fexpr, "a=" if k == "call_kw" else "", v))
+            k = k + lab
+        elif k == "call_second":
+            fexpr, lab = self.helper(cur, link, ["a", "b"], "b")
+            E("%s = %s(0, %s)" % (w, fexpr, v))
+            k = k + lab
+        elif k == "merge_src":
+            skind = link.get("src", "method")
+            if skind == "param" or self.avoid_has("src:" + skind):
+                skind = "method" if not self.avoid_has("src:method") else "field"
+            sid = self.new_source(skind, at)
+            self.sources[sid]["secondary"] = True
+            t = self.var("s")
+            E("%s = %s" % (t, self.source_expr(skind, sid)), tag=("src", sid))
+            E("%s = %s + %s" % (w, v, t))
+            k = "binop_merge"
+        elif k == "tee":
+            self.emit_sink(cur, v, link.get("snk", {}), at, ending="sink")
+            return cur, v, None
+        # ---- blocks that stay open --------------------------------------------------------------
+        elif k in BLOCK_LINKS:
+            if k in ("in_if", "in_else"):
+                c = self.var("c")
+                E("%s = %s" % (c, "True" if k == "in_if" else "False"))
+                h = E("if %s:" % c)
+                if k == "in_else":
+                    E("pass", extra_ind=4)
+                    h = E("else:")
+                cur.closers.append((h, []))
+            elif k == "in_for":
+                h = E("for %s in [0]:" % self.var("i"))
+                cur.closers.append((h, []))
+            elif k == "in_while":
+                c = self.var("c")
+                E("%s = True" % c)
+                E("while %s:" % c)
+                h = E("%s = False" % c, extra_ind=4)
+                cur.closers.append((h, []))
+            else:
+                h = E("try:")
+                cur.closers.append((h, [Line("except Exception:", cur.ind), Line("pass", cur.ind + 4)]))
+            cur.ind += 4
+            E("%s = %s" % (w, v))
+        # ---- descend -----------------------------------------------------------------------------
+        elif k in ("param", "param_kw"):
+            a = self.var("a")
+            fr, lab = self.descend_plain(cur, link, "func", args=[("%s=%s" % (a, v)) if k == "param_kw" else v], params=[a])
+            return fr, a, k + lab
+        elif k == "method_param":
+            a = self.var("a")
+            fr, lab = self.descend_plain(cur, link, "method", args=[v], params=[a])
+            return fr, a, k + lab
+        elif k == "closure":
+            if cur.kind == "module":
+                fr, _ = self.descend_plain(cur, {"df": 0}, "func")
+                if v not in cur.exported:
+                    cur.exported.append(v)
+                return fr, v, "global_read"
+            fr, _ = self.descend_plain(cur, link, "nested")
+            return fr, v, "closure"
+        # ---- ascend ------------------------------------------------------------------------------
+        elif k in ASCEND_LINKS:
+            return self.ascend(cur, v, link, w)
+        else:
+            E("%s = %s" % (w, v))
+            k = "assign"
+        return cur, w, k
+
+    def ascend(self, cur, v, link, w):
+        k = link["k"]
+        if k == "global_import" and cur.kind == "module" and cur.file != 0 and cur.parent is not None:
+            lab = "global_import@mod" if link.get("xf") == "mod" else "global_import@from"
+            if self.avoid_has(lab):
+                self.stepped.append(lab)
+                k = "return"
+        if k == "global_write" and cur.kind != "module" and cur.parent is not None and cur.parent.file != cur.file \
+                and self.avoid_has("global_write@mod"):
+            self.stepped.append("global_write@mod")
+            k = "return"
+        if k == "global_import" and cur.kind == "module" and cur.file != 0 and cur.parent is not None:
+            parent = cur.parent
+            cur.close_blocks()
+            if link.get("xf") == "mod":
+                self.files[parent.file].add_import("import %s" % MOD_NAMES[cur.file])
+                parent.emit("%s = %s.%s" % (w, MOD_NAMES[cur.file], v))
+                return parent, w, "global_import@mod"
+            self.files[parent.file].add_import("from %s import %s" % (MOD_NAMES[cur.file], v))
+            return parent, v, "global_import@from"
+        if k == "global_import":
+            k = "return"
+        if cur.kind == "module":
+            cur = self.wrap(cur)
+        parent, rec = cur.parent, cur.call_rec
+        if k == "nonlocal" and not (cur.kind == "nested" and cur.holder is not None):
+            k = "return"
+        if k == "out_field" and rec is None:
+            k = "return"
+        if k == "return":
+            cur.emit("return %s" % v)
+            rec.target = w
+            return parent, w, "return"
+        if k == "global_write":
+            g = self.var("G")
+            self.files[cur.file].ginit.append("%s = 0" % g)
+            cur.decls.append("global %s" % g)
+            cur.emit("%s = %s" % (g, v))
+            if parent.file == cur.file:
+                parent.emit("%s = %s" % (w, g))
+                return parent, w, "global_write"
+            self.files[parent.file].add_import("import %s" % MOD_NAMES[cur.file])
+            parent.emit("%s = %s.%s" % (w, MOD_NAMES[cur.file], g))
+            return parent, w, "global_write@mod"
+        if k == "nonlocal":
+            x = self.var("x")
+            idx = next(i for i, it in enumerate(cur.holder) if it is cur)
+            cur.holder.insert(idx, Line("%s = 0" % x, cur.at_ind))
+            cur.decls.append("nonlocal %s" % x)
+            cur.emit("%s = %s" % (x, v))
+            return parent, x, "nonlocal"
+        # out_field
+        cls = self.new_class(parent.file, "Bx")
+        b, o = self.var("b"), self.var("o")
+        idx = next(i for i, it in enumerate(parent.body) if it is rec)
+        parent.body.insert(idx, Line("%s = %s()" % (b, cls.name), rec.ind))
+        cur.params.append(o)
+        rec.args.append(b)
+        cur.emit("%s.f = %s" % (o, v))
+        parent.emit("%s = %s.f" % (w, b))
+        return parent, w, "out_field"
+
+    # -- chains -------------------------------------------------------------------------------
+    def emit_chain(self, c, chain):
+        self.c = c
+        self.nv = 0
+        B = self.B
+        touched = []
+        for fb in self.files:
+            fb.module.exported = []
+        src_kind = chain.get("src", "method")
+        if self.avoid_has("src:" + src_kind):
+            self.stepped.append("src:" + src_kind)
+            src_kind = "method" if not self.avoid_has("src:method") else "param"
+        labels = []
+        cur = B
+        B.seg_start = len(B.body)
+        sm = int(chain.get("start_mod", 0) or 0)
+        if 0 < sm < self.nfiles:
+            self.files[0].add_import("import %s" % MOD_NAMES[sm])
+            cur = self.files[sm].module
+            cur.parent = B
+            cur.seg_start = len(cur.body)
+        touched.append(cur)
+        for pre in chain.get("pre", []):
+            cur, _ = self.descend_plain(cur, pre, pre.get("kind", "func"))
+            touched.append(cur)
+        if src_kind in ("param", "decoy_param"):
+            sid = self.new_source("param", 0)
+            real = src_kind == "param"
+            pname = self.var("p") if real else "source"
+            self.sources[sid]["decoy"] = not real
+            if real:
+                self.add_src_rule("param", pname)
+                kidx = len(self.param_sites)
+                self.param_sites.append([sid, pname])
+            else:
+                self.add_src_rule("call", "source")
+                kidx = -1
+            fr, lab = self.descend_plain(cur, chain.get("pfile", {}), "func", args=["mkval(%d)" % kidx], params=[pname])
+            fr.header_tag = ("src", sid)
+            cur = fr
+            touched.append(cur)
+            v = pname
+        else:
+            sid = self.new_source(src_kind, 0)
+            v = self.var("s")
+            cur.emit("%s = %s" % (v, self.source_expr(src_kind, sid)), tag=("src", sid))
+        at = 0
+        for link in chain.get("links", []):
+            cur, v, lab = self.apply_link(cur, v, link, at)
+            if cur not in touched:
+                touched.append(cur)
+            if lab is not None:
+                labels.append(lab)
+                at += 1
+        self.emit_ending(cur, v, chain, at)
+        for fr in touched:
+            fr.close_blocks()
+        self.chains_meta.append({"labels": labels, "src": src_kind, "end": chain.get("end", "sink"),
+                                 "pre": [p.get("kind", "func") for p in chain.get("pre", [])],
+                                 "start_mod": bool(0 < sm < self.nfiles)})
+
+    def emit_ending(self, cur, v, chain, at):
+        end = chain.get("end", "sink")
+        snk = chain.get("snk", {})
+        E = cur.emit
+        if end == "sink":
+            self.emit_sink(cur, v, snk, at)
+        elif end == "drop":
+            self.emit_sink(cur, "7", snk, at, ending=end)
+        elif end == "kill":
+            E("%s = 0" % v)
+            self.emit_sink(cur, v, snk, at, ending=end)
+        elif end == "wrongpos":
+            self.emit_sink(cur, v, snk, at, ending=end, wrong=True)
+        elif end == "unrel_field":
+            cls = self.new_class(cur.file, "Bx")
+            o, w = self.var("o"), self.var()
+            E("%s = %s()" % (o, cls.name))
+            E("%s.g = 0" % o)
+            E("%s.f = %s" % (o, v))
+            E("%s = %s.g" % (w, o))
+            self.emit_sink(cur, w, snk, at, ending=end)
+        elif end == "unrel_obj":
+            cls = self.new_class(cur.file, "Bx")
+            o, o2, w = self.var("o"), self.var("o"), self.var()
+            E("%s = %s()" % (o, cls.name))
+            E("%s = %s()" % (o2, cls.name))
+            E("%s.f = 0" % o2)
+            E("%s.f = %s" % (o, v))
+            E("%s = %s.f" % (w, o2))
+            self.emit_sink(cur, w, snk, at, ending=end)
+        elif end == "unrel_var":
+            w, u = self.var(), self.var()
+            E("%s = %s" % (u, v))
+            E("%s = 0" % w)
+            self.emit_sink(cur, w, snk, at, ending=end)
+        elif end == "const_callee":
+            fexpr, _ = self.helper(cur, {}, ["a"], "1")
+            w = self.var()
+            E("%s = %s(%s)" % (w, fexpr, v))
+            self.emit_sink(cur, w, snk, at, ending=end)
+        elif end == "decoy_fieldw_prefix":
+            tid = len(self.sinks)
+            self.add_snk_rule("fieldw", "snkobj.out", "target")
+            E("snkobj.outer = %s" % v, tag=("snk", tid))
+            self.sinks.append({"id": tid, "kind": "fieldw", "pos": "target", "chain": self.c, "at": at, "ending": end})
+        elif end == "decoy_method_like_call":
+            tid = len(self.sinks)
+            self.add_snk_rule("call", "sink", "arg0")
+            E("snkobj.sink(%s)" % v, tag=("snk", tid))
+            self.sinks.append({"id": tid, "kind": "method", "pos": "arg0", "chain": self.c, "at": at, "ending": end})
+        else:
+            self.emit_sink(cur, v, snk, at)
+
+    # -- project ------------------------------------------------------------------------------
+    def build(self):
+        for c, chain in enumerate(self.spec.get("chains", [])):
+            self.emit_chain(c, chain)
+        files = {}
+        where = {}
+        for fb in self.files:
+            lay = fb.layout()
+            files[fb.name] = "\n".join(t for t, _ in lay) + "\n"
+            for i, (_, tag) in enumerate(lay):
+                if tag is not None:
+                    where[tag] = (fb.name, i + 1)
+        for s in self.sources:
+            s["file"], s["line"] = where[("src", s["id"])]
+        for t in self.sinks:
+            t["file"], t["line"] = where[("snk", t["id"])]
+        psites = []
+        for sid, pname in self.param_sites:
+            s = self.sources[sid]
+            psites.append([s["file"], s["line"], pname])
+        return {"files": files, "rules": {"source": self.src_rules, "sink": self.snk_rules}, "param_sites": psites,
+                "sources": self.sources, "sinks": self.sinks, "chains": self.chains_meta, "main": "a.py",
+                "stepped": sorted(self.stepped)}
+
+
+def render(spec):
+    return Builder(spec).build()
+
+
+def planted_paths(case):
+    """{(source id, sink id): [link labels]} for the pairs the generator connected by construction
+    (whether the value really arrives is decided by the ground truth run, not by this table)."""
+    out = {}
+    for s in case["sources"]:
+        for t in case["sinks"]:
+            # a secondary source enters with link number s.at, so it reaches the sinks emitted after that link
+            if s["chain"] == t["chain"] and s["at"] + (1 if s.get("secondary") else 0) <= t["at"]:
+                labels = case["chains"][s["chain"]]["labels"]
+                out[(s["id"], t["id"])] = labels[s["at"]:t["at"]]
+    return out
+
+
+# =============================================================================================
+# 4. Hypothesis strategies
+
+def spec_strategy(profile=None):
+    """Strategy of chain specs.  profile keys: src_kinds, snk_kinds, neg (probability in tenths of a negative
+    ending), endings (allowed negative endings), max_links."""
+    from hypothesis import strategies as st
+    profile = profile or {}
+    src_kinds = profile.get("src_kinds", SOURCE_KINDS)
+    snk_kinds = profile.get("snk_kinds", SINK_KINDS)
+    neg = int(profile.get("neg", 2))
+    endings = profile.get("endings", ["drop", "kill", "wrongpos", "unrel_field", "unrel_obj", "unrel_var", "const_callee"])
+    link_pool = profile.get("links", ALL_LINKS)
+    plain_links = [k for k in link_pool if k not in ("merge_src", "tee")]
+
+    @st.composite
+    def link_st(draw, allow_merge, allow_tee):
+        pool = plain_links
+        r = draw(st.integers(0, 19))
+        if allow_merge and r == 0 and "merge_src" in link_pool:
+            return {"k": "merge_src", "src": draw(st.sampled_from([k for k in src_kinds if k != "param"] or ["method"]))}
+        if allow_tee and r == 1 and "tee" in link_pool:
+            return {"k": "tee", "snk": draw(sink_st())}
+        k = draw(st.sampled_from(pool))
+        d = {"k": k}
+        if k in ("param", "param_kw", "method_param", "call_id", "call_kw", "call_second", "ctor_field"):
+            d["df"] = draw(st.sampled_from([0, 0, 1, 1, 2]))
+            d["xf"] = draw(st.sampled_from(["from", "from", "mod"]))
+        elif k == "global_import":
+            d["xf"] = draw(st.sampled_from(["from", "mod"]))
+        return d
+
+    @st.composite
+    def sink_st(draw):
+        kind = draw(st.sampled_from(snk_kinds))
+        d = {"kind": kind}
+        if kind in ("call", "method"):
+            pos = draw(st.sampled_from(["arg0", "arg0", "arg0", "arg1", "arg2"] + (["receiver", "receiver"] if kind == "method" else [])))
+            d["pos"] = pos
+            d["nargs"] = draw(st.integers(1, 3))
+        return d
+
+    @st.composite
+    def chain_st(draw, nfiles, allow_merge, allow_tee):
+        ch = {"src": draw(st.sampled_from(src_kinds))}
+        if nfiles > 1 and draw(st.integers(0, 6)) == 0:
+            ch["start_mod"] = draw(st.integers(1, nfiles - 1))
+        npre = draw(st.sampled_from([0, 0, 0, 0, 0, 0, 1, 1, 2]))
+        if npre:
+            ch["pre"] = [{"kind": draw(st.sampled_from(["func", "func", "nested", "method"])),
+                          "df": draw(st.sampled_from([0, 0, 1])), "xf": draw(st.sampled_from(["from", "from", "mod"]))}
+                         for _ in range(npre)]
+        if ch["src"] == "param":
+            ch["pfile"] = {"kind": "param", "df": draw(st.sampled_from([0, 0, 1])), "xf": draw(st.sampled_from(["from", "from", "mod"]))}
+        nl = draw(st.sampled_from([0, 1, 1, 1, 1, 1, 2, 2, 3, 4][:max(2, int(profile.get("max_links", 4)) + 6)]))
+        links = []
+        merged = teed = False
+        for _ in range(nl):
+            l = draw(link_st(allow_merge and not merged, allow_tee and not teed))
+            merged = merged or l["k"] == "merge_src"
+            teed = teed or l["k"] == "tee"
+            links.append(l)
+        ch["links"] = links
+        ch["end"] = draw(st.sampled_from(endings)) if draw(st.integers(0, 9)) < neg else "sink"
+        ch["snk"] = draw(sink_st())
+        return ch
+
+    @st.composite
+    def spec_st(draw):
+        nfiles = draw(st.sampled_from([1, 1, 2, 2, 3]))
+        nch = draw(st.sampled_from([1, 1, 1, 2, 2, 3]))
+        chains = []
+        for i in range(nch):
+            # <= 3 source sites and <= 3 sink sites in the whole project
+            spare = 3 - nch
+            used = sum(1 for c in chains for l in c["links"] if l["k"] in ("merge_src",))
+            usedt = sum(1 for c in chains for l in c["links"] if l["k"] in ("tee",))
+            chains.append(draw(chain_st(nfiles, used < spare, usedt < spare)))
+        return {"nfiles": nfiles, "chains": chains}
+    return spec_st()
+
+
+def spec_labels(case):
+    """Generator-class labels of a rendered case (for the evidence histogram)."""
+    out = []
+    out.append("files:%d" % len(case["files"]))
+    out.append("sources:%d" % len(case["sources"]))
+    out.append("sinks:%d" % len(case["sinks"]))
+    for s in case["sources"]:
+        out.append("src:" + s["kind"] + (":decoy" if s.get("decoy") else ""))
+    for t in case["sinks"]:
+        out.append("snk:%s:%s" % (t["kind"], t["pos"]))
+        if t["ending"] != "sink":
+            out.append("end:" + t["ending"])
+    for ch in case["chains"]:
+        out.append("chainlen:%d" % min(4, len(ch["labels"])))
+        for lab in ch["labels"]:
+            out.append("link:" + lab)
+    return out
+
+
+# =============================================================================================
+# 5. lian driver
+
+def group_rules(rules):
+    """[{..., optional "lang"}] -> [{"lang": l, "rules": [...]}] in first-appearance order of the languages."""
+    groups = []
+    for r in rules:
+        r = dict(r)
+        lang = r.pop("lang", "python")
+        for g in groups:
+            if g["lang"] == lang:
+                g["rules"].append(r)
+                break
+        else:
+            groups.append({"lang": lang, "rules": [r]})
+    return groups
+
+
+def run_lian(files, rules, keep_from_code=False, propagation=None):
+    """Run the full pipeline in-process.  -> dict(flows=set of (src file, src line, sink file, sink line),
+    detail=[(src op, sink op, ...)], exc=None|str, nflows=int)."""
+    from harness import lianrun, common
+    import tempfile
+    import shutil
+    d = tempfile.mkdtemp(prefix="tg-", dir=lianrun.scratch_dir())
+    res = None
+    try:
+        sd = lianrun.write_settings(
+            os.path.join(d, "settings"),
+            entry=[{"method_list": ["%unit_init"]}],
+            source=group_rules(rules["source"]), sink=group_rules(rules["sink"]),
+            propagation=propagation if propagation is not None else shipped_propagation(common.REPO))
+        res = lianrun.analyze(files, settings_dir=sd, lang="python", workdir=d, keep_from_code_rules=keep_from_code)
+        out = {"flows": set(), "detail": [], "exc": None, "nflows": 0}
+        if res.exc is not None:
+            import traceback
+            tb = traceback.extract_tb(res.exc.__traceback__)
+            where = ""
+            for fr in reversed(tb):
+                if "/lian/" in fr.filename:
+                    where = "%s:%s" % (os.path.basename(fr.filename), fr.name)
+                    break
+            out["exc"] = "%s@%s: %s" % (type(res.exc).__name__, where, str(res.exc)[:200])
+            out["exc_sig"] = (type(res.exc).__name__, where)
+        ld = res.loader
+        if ld is not None:
+            for fl in res.flows:
+                for f in fl:
+                    try:
+                        a = _stmt_loc(ld, f.source_stmt_id, res.inputs)
+                        b = _stmt_loc(ld, f.sink_stmt_id, res.inputs)
+                    except Exception as e:      # a flow whose statements cannot be located is kept visible
+                        out["detail"].append(("unlocatable", repr(e)))
+                        continue
+                    out["nflows"] += 1
+                    out["flows"].add((a[0], a[1], b[0], b[1]))
+                    out["detail"].append((a[0], a[1], a[2], b[0], b[1], b[2]))
+        return out
+    finally:
+        shutil.rmtree(d, ignore_errors=True)
+
+
+def _stmt_loc(ld, sid, inputs_root):
+    uid = ld.convert_stmt_id_to_unit_id(sid)
+    info = ld.convert_module_id_to_module_info(uid)
+    path = info.original_path
+    rel = os.path.relpath(path, inputs_root) if path.startswith(inputs_root) else os.path.basename(path)
+    st = ld.get_stmt_gir(sid)
+    return rel, int(st.start_row) + 1, str(st.operation)
